@@ -466,6 +466,11 @@ func c07GenCase(c *Case, group string, cat *c07Catalogue, nShifts int) {
 		}
 		c.SetAdd("indirect_messages", siteName+"|"+msgClass)
 	}
+	if strings.HasPrefix(siteName, "u.") {
+		c.SetAdd("non_ascii_before_sites", siteName)
+		c.SetAdd("non_ascii_before", group+"|"+base.styleName())
+		c.Count("cases_with_non_ascii_text_before", 1)
+	}
 	if base.info["lead"] > 0 {
 		c.SetAdd("blanks_inside_quotes", fmt.Sprintf("%s|%d", base.mode, base.info["lead"]))
 		c.SetAdd("blanks_inside_quotes_modes", base.mode)
@@ -768,11 +773,14 @@ func c07Properties(c *Case, base *c07Built, ds0 []Diag, obs0 []c07Obs, group str
 	}
 	b1, b2 := c07Spaces(r.Range(1, 3)), c07Spaces(r.Range(1, 3))
 	var prop, class string
-	choice := r.Intn(5)
+	choice := r.Intn(6)
 	if tag == "" && choice != 0 {
 		choice = 0
 	}
 	switch choice {
+	case 5:
+		// the non-specific tag "!" (forces the string type); the library does not mark it as a tag
+		prop, class, anchor, tag = "!"+b1, "nonspecific-tag", "", ""
 	case 0, 1:
 		prop, class = "&"+anchor+b1, "anchored"
 	case 2:
@@ -852,6 +860,10 @@ func c07Properties(c *Case, base *c07Built, ds0 []Diag, obs0 []c07Obs, group str
 	c.Count("property_variants_compared", 1)
 	c.SetAdd("property_classes", group+"|"+class+"|"+base.styleName())
 	c.SetAdd("property_kind_x_class", base.kind+"|"+class)
+	if strings.HasPrefix(c07SiteNames(base), "u.") {
+		c.SetAdd("non_ascii_before_with_properties", group+"|"+class)
+		c.Count("non_ascii_before_property_variants", 1)
+	}
 	if base.isKey {
 		c.SetAdd("property_on_keys", class)
 	}
@@ -1103,6 +1115,62 @@ func c07ExplicitKeyCase(c *Case) {
 	c07Bounds(c, "explicit-key-without-value", src, ds, func() map[string]interface{} { return map[string]interface{}{} })
 }
 
+// c07BOMCase: a file that starts with a UTF-8 byte order mark; the construct (an unknown event in
+// a flow sequence, with or without node properties) is on line 1. The mark is not a character of
+// the line.
+func c07BOMCase(c *Case) {
+	r := c.R
+	ev := r.Pick([]string{"pushx", "bogus", "pull-request"})
+	style := r.Intn(3)
+	text := []string{ev, "'" + ev + "'", "\"" + ev + "\""}[style]
+	prop, class := "", "none"
+	switch r.Intn(5) {
+	case 1:
+		prop, class = "&a"+c07Spaces(r.Range(1, 3)), "anchored"
+	case 2:
+		prop, class = "!!str"+c07Spaces(r.Range(1, 3)), "tagged"
+	case 3:
+		prop, class = "&ev !!str ", "anchored+tagged"
+	case 4:
+		prop, class = "! ", "nonspecific-tag"
+	}
+	head := "on: [" + c07Spaces(r.Intn(3))
+	if r.Bool() {
+		head += "push, "
+	}
+	line1 := head + prop + text + "]"
+	wantCol := len(head) + len(prop) + 1
+	src := "\ufeff" + line1 + "\njobs:\n  build:\n    runs-on: ubuntu-latest\n    steps:\n      - run: echo\n"
+	ds, err := lintSrc(src)
+	c.Eval(1)
+	if err != nil {
+		c.Violation("C07:fatal-error", "fatal error: "+err.Error(), map[string]interface{}{"src": src})
+		return
+	}
+	c.Logf("%q\ndiagnostics: %v", src, diagStrings(ds))
+	c07Bounds(c, "bom-line1", src, ds, func() map[string]interface{} { return map[string]interface{}{} })
+	var got *Diag
+	for i := range ds {
+		if strings.Contains(ds[i].Msg, "unknown Webhook event \""+ev+"\"") {
+			got = &ds[i]
+		}
+	}
+	if got == nil || len(ds) != 1 {
+		c.Count("bom_cases_skipped", 1)
+		return
+	}
+	c.Nontrivial("bom|" + line1)
+	c.SetAdd("bom_classes", class+"|"+[]string{"plain", "single", "double"}[style])
+	if got.Line != 1 || got.Col != wantCol {
+		sig := "C07:abs:bom-line1:" + class
+		if class == "none" || got.Col-wantCol != -len(prop) {
+			sig = fmt.Sprintf("C07:abs:bom-line1:%s:dl=%+d,dc=%+d", class, got.Line-1, got.Col-wantCol)
+		}
+		c.Violation(sig, fmt.Sprintf("file starting with a byte order mark: unknown event reported at %d:%d but the value is at 1:%d (properties %q): %s", got.Line, got.Col, wantCol, prop, got.Msg),
+			map[string]interface{}{"src": src, "diagnostics": diagStrings(ds), "expected": Pos{1, wantCol}})
+	}
+}
+
 // ---------------------------------------------------------------------------
 
 func runC07(r *Run) {
@@ -1114,6 +1182,8 @@ func runC07(r *Run) {
 	r.Assume("no-interference oracle: a further erroneous entry appended after the construct in the same holder must leave every diagnostic of the base at its position; a diagnostic whose message disappears is not compared (the added entry may change what is checked)")
 	r.Assume("blanks between the quotes and the text (0-6) are part of the layout of every expression site except if: placeholders (there they are diagnosed themselves as extra characters) and the two-rule sites")
 	r.Assume("node properties (&anchor, !!str, both in either order, 1-3 blanks after each) are not part of the scalar text: a diagnostic must keep its offset from the construct whether or not the scalar (value or key) carries them, and blanks between them and the text shift the report; aliases carry no position claim and are not generated; a number-typed plain value only gets an anchor (a !!str tag would change its kind); the diagnostic about a schedule element is reported at the element, which starts at the properties of its first key, and is not compared")
+	r.Assume("columns are counted in characters: sites u.* put 2-, 3- and 4-byte characters into EARLIER keys / flow siblings on the line of the construct; the diagnosed scalar itself stays ASCII")
+	r.Assume("a UTF-8 byte order mark at the start of the file is not a character of line 1")
 	r.Assume("positions embedded in message texts (previously defined at line:L,col:C) are not compared")
 	r.Assume("a generated case that yields a diagnostic outside its expectation list, or lacks the expected one, is counted and skipped (floor: < 3% of the cases)")
 	r.Assume("lines are counted like the YAML reader does (LF, CRLF, CR, NEL, LS, PS)")
@@ -1176,6 +1246,7 @@ func runC07(r *Run) {
 	}})
 	fams = append(fams, &Family{Name: "escaped-line-breaks", N: r.Q(60, 2000), Do: c07EscapedBreakCase})
 	fams = append(fams, &Family{Name: "explicit-key-at-eof", N: r.Q(30, 300), Do: c07ExplicitKeyCase})
+	fams = append(fams, &Family{Name: "bom-line1", N: r.Q(150, 1500), Do: c07BOMCase})
 
 	// (b) + (c)
 	const nShifts = 3
@@ -1198,7 +1269,7 @@ func runC07(r *Run) {
 		r.Inconclusive("bounds oracle saw fewer than 1000 diagnostics")
 	}
 	total := int64(0)
-	for _, f := range fams[3:] {
+	for _, f := range fams[4:] {
 		total += int64(f.N)
 	}
 	compared := r.Counter("cases_compared")
@@ -1305,7 +1376,31 @@ func runC07(r *Run) {
 		}
 	}
 	for _, g := range []string{"expr", "key", "value", "glob"} {
-		for _, cl := range []string{"anchored", "tagged", "anchored+tagged"} {
+		for _, st := range []string{"plain", "single", "double"} {
+			if !r.SetHas("non_ascii_before", g+"|"+st) {
+				r.Inconclusive("no compared case with non-ASCII text earlier on the line: " + g + " / " + st)
+			}
+		}
+		for _, cl := range []string{"anchored", "tagged", "anchored+tagged", "nonspecific-tag"} {
+			if !r.SetHas("non_ascii_before_with_properties", g+"|"+cl) {
+				r.Inconclusive("non-ASCII text earlier on the line never combined with node properties: " + g + " / " + cl)
+			}
+		}
+	}
+	for _, cl := range []string{"none", "anchored", "tagged", "anchored+tagged", "nonspecific-tag"} {
+		for _, st := range []string{"plain", "single", "double"} {
+			if !r.SetHas("bom_classes", cl+"|"+st) {
+				r.Inconclusive("byte order mark + construct on line 1 never compared: " + cl + " / " + st)
+			}
+		}
+	}
+	for _, us := range []string{"u.step-env-key", "u.job-env-key", "u.wf-env-key", "u.outputs-key", "u.env-flow", "u.with-flow", "u.matrix-row-flow", "u.step-flow.shell", "u.matrix-dup-flow", "u.permission-flow", "u.step-flow.unexpected", "u.env-flow.duplicate"} {
+		if !r.SetHas("non_ascii_before_sites", us) {
+			r.Inconclusive("site with non-ASCII text earlier on the line never compared: " + us)
+		}
+	}
+	for _, g := range []string{"expr", "key", "value", "glob"} {
+		for _, cl := range []string{"anchored", "tagged", "anchored+tagged", "nonspecific-tag"} {
 			for _, st := range []string{"plain", "single", "double"} {
 				if !r.SetHas("property_classes", g+"|"+cl+"|"+st) {
 					r.Inconclusive("node properties never compared: " + g + " / " + cl + " / " + st + " scalar")
